@@ -1,3 +1,4 @@
+from ast import BoolOp, And
 from ast import Attribute, Subscript, Load, NodeVisitor, Name as AstName
 
 from .compat import PY2
@@ -121,25 +122,37 @@ class extract_visitor(NodeVisitor):
         exits = [self.flow]
         for v in node.values[1:]:
             exits.append(self.visit_in_flow(v, self.make_flow('boolop', [exits[-1]])))
+        node.evaluated = exits[-1]  # type: ignore[attr-defined]
         self.flow = self.make_flow('join', exits)
         self.flow.scope.flow = self.flow
 
+    def visit_test(self, test):
+        # type: (ast.expr) -> tuple[Flow, Flow]
+        """Visits a condition, returns the regions its true and its false
+        branch start from: `a and b` holds and `a or b` fails only after
+        all the operands were evaluated"""
+        self.visit(test)
+        if type(test) is BoolOp:
+            evaluated = test.evaluated  # type: Flow  # type: ignore[attr-defined]
+            if type(test.op) is And:
+                return evaluated, self.flow
+            return self.flow, evaluated
+        return self.flow, self.flow
+
     def visit_If(self, node):
         # type: (ast.If) -> None
-        self.visit(node.test)
-        cur = self.flow
-        body = self.visit_in_flow(node.body, self.make_flow('if', [cur]))
-        orelse = self.visit_in_flow(node.orelse, self.make_flow('else', [cur]))
+        taken, skipped = self.visit_test(node.test)
+        body = self.visit_in_flow(node.body, self.make_flow('if', [taken]))
+        orelse = self.visit_in_flow(node.orelse, self.make_flow('else', [skipped]))
         self.flow = self.make_flow('join', [body, orelse])
         self.flow.scope.flow = self.flow
 
     def visit_IfExp(self, node):
         # type: (ast.IfExp) -> None
         # evaluation order is test, then one of body/orelse (body comes first in the text)
-        self.visit(node.test)
-        cur = self.flow
-        body = self.visit_in_flow(node.body, self.make_flow('ifexp', [cur]))
-        orelse = self.visit_in_flow(node.orelse, self.make_flow('ifexp-else', [cur]))
+        taken, skipped = self.visit_test(node.test)
+        body = self.visit_in_flow(node.body, self.make_flow('ifexp', [taken]))
+        orelse = self.visit_in_flow(node.orelse, self.make_flow('ifexp-else', [skipped]))
         self.flow = self.make_flow('join', [body, orelse])
         self.flow.scope.flow = self.flow
 
@@ -181,14 +194,16 @@ class extract_visitor(NodeVisitor):
 
         # the test is evaluated before every iteration: it sees the body's bindings too
         test_start = self.make_flow('while-test', [cur])
-        test = self.visit_in_flow(node.test, test_start)
+        self.flow = test_start
+        taken, skipped = self.visit_test(node.test)
+        self.flow = cur
 
-        body_start = self.make_flow('while', [test])
+        body_start = self.make_flow('while', [taken])
         body = self.visit_in_flow(node.body, body_start)
         test_start.loop(body)
 
         orelse = self.visit_in_flow(node.orelse,
-                                    self.make_flow('while-else', [test]))
+                                    self.make_flow('while-else', [skipped]))
 
         self.flow = self.make_flow('join', [orelse])
         self.flow.scope.flow = self.flow
